@@ -1159,10 +1159,13 @@ fn concurrent_finalize(sh: &Arc<Shared>, local: &mut TaskLocal, h: usize, n: usi
         let cells: Vec<std::sync::Mutex<Option<Result<(Vec<u8>, [u8; 32]), String>>>> =
             vec![std::sync::Mutex::new(None), std::sync::Mutex::new(None)];
         let mut handles = Vec::new();
+        let mut tslots = Vec::new();
         for (k, c) in [c1, c2].into_iter().enumerate() {
             let sc2 = sc.clone();
             let cell = &cells[k];
-            handles.push(crate::tpool::run_scoped(Box::new(move || {
+            let tslot = sc.alloc_thread_slot(16);
+            tslots.push(tslot);
+            handles.push(crate::tpool::run_scoped_on(tslot, Box::new(move || {
                 sched::set_ctx(Some(sched::TaskCtx { sched: sc2.clone(), id: c, quiet: 0 }));
                 apply_level(level);
                 set_in_task(true);
@@ -1188,6 +1191,9 @@ fn concurrent_finalize(sh: &Arc<Shared>, local: &mut TaskLocal, h: usize, n: usi
             h.wait();
         }
         drop(handles);
+        for t in tslots {
+            sc.free_thread_slot(t);
+        }
         let rs: Vec<_> = cells.into_iter().map(|c| c.into_inner().unwrap().unwrap_or(Err("child did not run".into()))).collect();
         let res = (mine_, rs);
         mine = res.0;
